@@ -175,6 +175,53 @@ def pick_id(i):
     return "-7"
 
 
+def pick_val(i):
+    # non-string leaves of the property's corpus: large and negative integers, floats at the edges, nested empties
+    if i == 0:
+        return 2 ** 63
+    if i == 1:
+        return -(2 ** 63)
+    if i == 2:
+        return 2 ** 64 - 1
+    if i == 3:
+        return 1e308
+    if i == 4:
+        return -0.0
+    if i == 5:
+        return 5e-324
+    if i == 6:
+        return [[], {}, [None, {"k": None}]]
+    return True
+
+
+def ctor_json_val(which, what, idsel, vsel):
+    """numeric / nested corpus values through the real JSON text encoder and back"""
+    import json as _json
+
+    rid = pick_id(idsel)
+    v = pick_val(vsel)
+    fam = _ctor_pairs()[which]
+    params = {"v": v, "deep": {"w": [v, None]}}
+    if what == 0:
+        m = fam[1]("m", params, rid)
+    elif what == 1:
+        m = fam[2]("m", params)
+    elif what == 2:
+        m = fam[3](rid, params)
+    else:
+        m = fam[4](rid, -32000, "e", params)
+    txt = m.model_dump_json(exclude_none=True)
+    if "\n" in txt or "\r" in txt:
+        return "raw-line-break-in-encoding"
+    d = _json.loads(txt)
+    if not same_json(d, m.model_dump(exclude_none=True)):
+        return "json-text-differs-from-dump"
+    body = d.get("params") if what in (0, 1) else (d.get("result") if what == 2 else d["error"].get("data"))
+    if not same_json(body, params):
+        return "payload-value-changed"
+    return check(d)
+
+
 def pick_str(i):
     if i == 0:
         return "plain"
